@@ -3,7 +3,7 @@
 Class E (bounded-exhaustive exploration): the solver enumerates every project shape of the template space
 (lib/templates.py: definition kind x duplicate definitions x nested class x re-export form x origin __all__ x a local
 definition of the exported name before/after the import x consumer form x import cycle x zope interfaces x field-documented
-attribute); the real System.process() runs on each, and the invariants I1..I8 of the statement are evaluated on the result.
+attribute x a sub-module named like the root package); the real System.process() runs on each, and the invariants I1..I8 of the statement are evaluated on the result.
 """
 from lib.hx import harness, pick, pickb, done, tier, PART, note, known, sample
 
@@ -21,8 +21,8 @@ from lib import projects as PJ
 D = T.DIMS
 
 
-def check_shape(kw, zope, fielddoc):
-    sources, exporter, newname = T.gen(zope=zope, fielddoc=fielddoc, **kw)
+def check_shape(kw, zope, fielddoc, samename=False):
+    sources, exporter, newname = T.gen(zope=zope, fielddoc=fielddoc, samename=samename, **kw)
     sample(shape=kw, sources={k: v[0] for k, v in sources.items()})
     try:
         s = PJ.build(sources)
@@ -50,25 +50,25 @@ def _parts():
     parts=_parts, timeout=(240, 1800), cls="E", tracing="concrete-after-choice", twin="first",
     code=["pydoctor.model.System.addObject/handleDuplicate/_remove/_addUnprocessedModule", "pydoctor.model.Documentable.reparent/_handle_reparenting_pre/_handle_reparenting_post",
           "pydoctor.astbuilder.ModuleVistor._handleReExport", "pydoctor.model.defaultPostProcess/compute_mro", "pydoctor.extensions.zopeinterface", "pydoctor.model.System.process"],
-    bounds={"quick": "full product of the 8 template dimensions (6 240 shapes) with zope interfaces and field-documented attribute off/on tied to the shape (2 of the 4 combinations per shape)",
-            "thorough": "full product x zope on/off x field-documented attribute on/off (24 960 shapes)"},
+    bounds={"quick": "full product of the 8 template dimensions (6 240 shapes) with zope interfaces, field-documented attribute and a sub-module named like the root package off/on tied to the shape (2 of the 8 combinations per shape)",
+            "thorough": "full product x zope on/off x field-documented attribute on/off x same-named sub-module on/off (49 920 shapes)"},
     outside="projects not expressible in the template; C modules / introspection; --prepend-package",
 )
-def h_model_invariants(xkind: int, nested: bool, origin_all: int, local_def: int, cycle: bool, zope: bool, fielddoc: bool) -> bool:
+def h_model_invariants(xkind: int, nested: bool, origin_all: int, local_def: int, cycle: bool, zope: bool, fielddoc: bool, samename: bool) -> bool:
     """
     pre: 0 <= xkind <= 1 and 0 <= origin_all <= 2 and 0 <= local_def <= 2
-    pre: FULL or (zope == nested and fielddoc == cycle)
+    pre: FULL or (zope == nested and fielddoc == cycle and samename == cycle)
     post: _
     """
     ri, di, ci = PART if PART is not None else [1, 0, 1]
     kw = dict(xkind=D["xkind"][pick(xkind, 0, 1)], dup=D["dup"][di], nested=pickb(nested), reexp=D["reexp"][ri],
               origin_all=D["origin_all"][pick(origin_all, 0, 2)], local_def=D["local_def"][pick(local_def, 0, 2)],
               consumer=D["consumer"][ci], cycle=pickb(cycle))
-    zope, fielddoc = pickb(zope), pickb(fielddoc)
+    zope, fielddoc, samename = pickb(zope), pickb(fielddoc), pickb(samename)
     if not T.valid(kw):
         return True
     with NoTracing():
-        ok = check_shape(kw, zope, fielddoc)
+        ok = check_shape(kw, zope, fielddoc, samename)
     return done(ok)
 
 
